@@ -1130,6 +1130,26 @@ func ruleC06Snapstep(c *Ctx) {
 			}})
 		}
 	}
+	// ... and before a coalesce is planned: a hole still queued for the parent was right when it was
+	// queued; punched after the fold it erases the newer data the fold copied there
+	if fn := c.Anchor(rule, fRep+"PrepareRemoveDisk"); fn != nil {
+		R := NewRenderer(fn)
+		sites := CallsTo(fn, fRep+"processPrepareRemoveDisks")
+		if len(sites) == 0 {
+			for _, r := range successReturns(fn) {
+				if ret, ok := r.(*ssa.Return); ok && len(ret.Results) > 0 && !isNilConst(strip(ret.Results[0])) {
+					sites = append(sites, r)
+				}
+			}
+		}
+		if len(sites) == 0 {
+			c.Undecided(rule, FnName(fn)+" | plans the coalesce", c.P.Pos(fn.Pos()), "no emission of the removal plan found")
+		}
+		c.Guard(rule, fn, sites, "plan the coalesce", nil, Need{Desc: "hole queue drained (r.holeDrainer())", Instr: func(in ssa.Instruction) bool {
+			cl, ok := in.(*ssa.Call)
+			return ok && cl.Call.StaticCallee() == nil && !cl.Call.IsInvoke() && R.V(cl.Call.Value) == "$0.holeDrainer"
+		}})
+	}
 	if fn := c.Anchor(rule, fSrv+"Close"); fn != nil {
 		R := NewRenderer(fn)
 		c.Guard(rule, fn, CallsTo(fn, fRep+"Close"), "close replica", nil, Need{Desc: "hole queue drained (s.r.holeDrainer())", Instr: func(in ssa.Instruction) bool {
